@@ -419,3 +419,39 @@ class Check:
             self.prop, self.tier, len(self.runs), paths, cov["discharged"], cov["obligations"], cov["solver_queries"],
             len(self.known), len(self.violations), time.time() - self.t0))
         return 1 if self.violations else 0
+
+
+# ---------------------------------------------------------------- cross-solver diff
+
+def _verdicts(cmd, text):
+    try:
+        r = subprocess.run(cmd, input=text, capture_output=True, text=True, timeout=600)
+    except subprocess.TimeoutExpired:
+        return None
+    return [l.strip() for l in r.stdout.splitlines() if l.strip() in ("sat", "unsat", "unknown")]
+
+
+def cross_solver(ck, module_dir, harness_paths, pkgname, run_re, env=None, use_modfile=True, steps=2000000):
+    """Re-runs a small harness with SMT transcripts and re-submits them to z3 5.1.0 and cvc5;
+    any disagreement on a sat/unsat verdict aborts the check (exit 2, no verdict)."""
+    d = tempfile.mkdtemp(prefix="smtlog_", dir=scratch())
+    run_symgo(module_dir, harness_paths, pkgname, run_re, steps=steps, env=env, use_modfile=use_modfile, workers=2,
+              timeout=120, extra=["-smtlog", d], samples=0)
+    total, files = 0, 0
+    for f in sorted(os.listdir(d)):
+        text = open(os.path.join(d, f)).read()
+        if "(check-sat)" not in text:
+            continue
+        files += 1
+        base = _verdicts(["z3", "-in", "-smt2"], text)
+        znew = _verdicts(["z3-new", "-in", "-smt2"], text)
+        c5text = "(set-logic QF_BV)\n" + "\n".join(l for l in text.splitlines() if not l.startswith("(set-option :timeout"))
+        cvc = _verdicts(["cvc5", "--incremental", "--lang=smt2"], c5text)
+        for name, other in (("z3-new 5.1.0", znew), ("cvc5", cvc)):
+            if other is None or base is None or len(other) != len(base) or any(
+                    a != b for a, b in zip(base, other) if "unknown" not in (a, b)):
+                print("solver disagreement between z3 4.8.12 and %s on %s" % (name, f), file=sys.stderr)
+                sys.exit(2)
+        total += len(base)
+    ck.extra["cross_solver"] = {"harnesses": run_re, "transcripts": files, "queries_compared": total,
+                                "solvers": ["z3 4.8.12", "z3 5.1.0", "cvc5 1.0"], "agree": True}
